@@ -169,6 +169,12 @@ class C10(Prop):
     # (round 3: the mixtures esl_hxp_* / esl_mixgev_* incl. esl_vec_DLogSum and all four bisection inverses are TRANSLATED,
     #  so `mix` operations are compared bit-for-bit)
 
+    NAN_RE = re.compile(r"\b[7f]ff(?!0{13})[0-9a-f]{13}\b")
+
+    @classmethod
+    def canon_nan(cls, line):
+        return cls.NAN_RE.sub("7ff8000000000000", line) if line.startswith("ok ") else line
+
     @staticmethod
     def close(a, b, rel, ab):
         if a == b or (a != a and b != b):
@@ -210,7 +216,7 @@ class C10(Prop):
         for i in range(n):
             a = impl_out[i] if i < len(impl_out) else "<missing>"
             b = model_out[i] if i < len(model_out) else "<missing>"
-            if a == b:
+            if self.canon_nan(a) == self.canon_nan(b):      # NaN: sign and payload are not part of the comparison (Lean prints the canonical one)
                 continue
             kind, kv, _ = parse_op(case["ops"][i]) if i < len(case["ops"]) else ("", {}, [])
             fns = kv.get("fn", "").split(",")
@@ -222,6 +228,13 @@ class C10(Prop):
             tol = None
             if kind in ("f", "f2"):
                 tol = self.H_TOL.get(fns[0]) or self.H_TOL.get(R.split_fn(fns[0])[0])
+            if a.startswith("exception e") and kind == "f" and R.split_fn(fns[0])[0] in ("sxp", "gam"):
+                # esl_stats_IncompleteGamma threw (eslENOHALT at x = inf / NaN, eslERANGE): the C caller then returns an
+                # unset local; the model's Float instance answers NaN where the hand model of the algorithm yields `none`
+                vb = parse_out(b)
+                if vb is not None and len(vb) == 1 and vb[0] != vb[0]:
+                    self.__dict__.setdefault("threw_as_nan", [0])[0] += 1
+                    continue
             va, vb = parse_out(a), parse_out(b)
             if tol and va is not None and vb is not None and len(va) == len(vb) and all(self.close(x, y, *tol) for x, y in zip(va, vb)):
                 self.__dict__.setdefault("hdrift", [0])[0] += 1
@@ -509,9 +522,43 @@ class C10(Prop):
                 ops.append("vec fn=%s v=%s" % (fn, ",".join(dhex(x) for x in v)))
         return {"name": name, "ops": ops, "sticky": 0}
 
+    EDGE_PARAMS = {"exp": [[0.0, 1.0], [3.0, 2.0], [-1e3, 1e-3]], "gumbel": [[0.0, 1.0], [-20.0, 0.7]],
+                   "gev": [[0.0, 1.0, 0.5], [0.0, 1.0, -0.5], [1.0, 2.0, 1e-13], [0.0, 1.0, 0.0], [-4.0, 0.5, -1.0]],
+                   "wei": [[0.0, 1.0, 0.7], [3.0, 2.0, 2.0], [0.0, 1.0, 1.0]], "sxp": [[0.0, 1.0, 0.5], [3.0, 2.0, 2.0]],
+                   "gam": [[0.0, 1.0, 0.5], [3.0, 2.0, 2.0], [0.0, 1.0, 1.0]], "normal": [[0.0, 1.0], [3.0, 2.0]], "lognormal": [[0.0, 1.0], [1.0, 0.5]]}
+    EDGE_P = [0.0, 5e-324, 2.2250738585072014e-308, nextafter(0.5, -1), 0.5, nextafter(0.5, 1), 1 - 2.0 ** -53, 1.0]
+
+    def edge_cases(self):
+        """Round 6, tie only (model vs code bit-for-bit, NaN as NaN; the closed-form monitors do not judge arguments outside the
+           documented range): every x-function at x = +inf, -inf, NaN, x = mu exactly and mu +- 1 ulp; every inverse at
+           p in {0, 5e-324, DBL_MIN, 1/2 +- 1 ulp, 1 - 2^-53, 1, NaN}; the mixtures at the same arguments."""
+        INF, NAN = math.inf, math.nan
+        out = []
+        for fam, pars in self.EDGE_PARAMS.items():
+            pre, npar, fx, fp, xn, pn = R.FAMILY[fam]
+            ops = []
+            for par in pars:
+                for x in (INF, -INF, NAN, par[0], nextafter(par[0], 1), nextafter(par[0], -1)):
+                    for w in xn:
+                        ops.append(op_f(pre + w, [x] + par))
+                for p in self.EDGE_P + [NAN]:
+                    for w in pn:
+                        ops.append(op_f(pre + w, [p] + par))
+            out.append({"name": "edge-nonfinite-%s" % fam, "ops": ops, "tie_only": True})
+        ops = []
+        for x in (INF, -INF, NAN, 0.0):
+            for w in ("pdf", "logpdf", "cdf", "logcdf", "surv", "logsurv"):
+                ops.append(_mixop("hxp", w, x, mu=[0.0], q=[0.25, 0.75], l=[1.0, 2.0]))
+                ops.append(_mixop("mixgev", w, x, q=[0.25, 0.5, 0.25], mu=[0.0, 1.0, -1.0], l=[1.0, 2.0, 0.5], al=[0.0, 0.5, -0.5]))
+        for p in self.EDGE_P:
+            ops.append(_mixop("hxp", "invcdf", p, mu=[3.0], q=[0.25, 0.75], l=[1.0, 2.0]))
+            ops.append(_mixop("mixgev", "invcdf", p, q=[0.5, 0.5], mu=[0.0, 1.0], l=[1.0, 2.0], al=[0.0, 0.1]))
+        out.append({"name": "edge-nonfinite-mix", "ops": ops, "tie_only": True})
+        return out
+
     def corpus(self, ctx):
         rng = ctx.rng
-        out = []
+        out = self.edge_cases()
         # canonical parameters: thresholds are hit exactly (x = y)
         for fam in self.families_T:
             for extra in ([[]] if fam in ("exp", "gumbel") else [[v] for v in ((1e-13, -1e-13, 5e-12, 0.5, -0.5) if fam == "gev" else (0.7, 1.0, 2.0))]):
@@ -622,6 +669,9 @@ class C10(Prop):
 
     def monitor_inner(self, ctx, case, out):
         ops = case["ops"]
+        if case.get("tie_only"):
+            self.__dict__.setdefault("tie_only_ops", [0])[0] += len(ops)
+            return None
         if "expect" in case and len(case["expect"]) == len(ops):       # (a shrunk case no longer lines up: skip)
             for op, want, line in zip(ops, case["expect"], out):
                 if line != "ok " + want:
@@ -935,6 +985,7 @@ class C10(Prop):
                 "literals_from_source_text": getattr(self, "tinfo", {}).get("literals", []),
                 "hand_model_ops_equal_within_tolerance_but_not_bitwise": getattr(self, "hdrift", [0])[0],
                 "input_distribution": {"ops_by_function": st["ops"], "returned_values": st["values"]},
+                "tie_only_ops_at_nonfinite_and_edge_arguments": getattr(self, "tie_only_ops", [0])[0],
                 "l0_branch_coverage": self.branch_coverage()}
 
     # `return` statements that no non-NaN argument reaches (listed so that "uncovered" means something)
